@@ -418,6 +418,40 @@ Qed.
 Lemma read_v2_nil : forall d, read_v2 [] d = Cont [] d.
 Proof. reflexivity. Qed.
 
+(* the faithful variant (DataSize read within the capacity of the blob) differs from
+   [read_v2] only on bodies of 1..3 bytes, which the writer never produces *)
+Lemma takeN_app_le : forall A (a b : list A) k, k <= len a -> takeN k (a ++ b) = takeN k a.
+Proof.
+  intros A a b k H. rewrite !takeN_firstn, firstn_app. unfold len in H.
+  replace (N.to_nat k - length a)%nat with O by lia. cbn [firstn]. apply app_nil_r.
+Qed.
+
+Lemma step_data_x_eq : forall ext rest d, rest = [] \/ 4 <= len rest ->
+  step_data_x ext rest d = step_data rest d.
+Proof.
+  intros ext rest d [H|H]; [subst; reflexivity|].
+  unfold step_data_x, step_data. destruct rest as [|x r]; [reflexivity|].
+  rewrite takeN_app_le by assumption.
+  destruct (len (x :: r) <? 4) eqn:E; [lia|]. cbn [orb]. reflexivity.
+Qed.
+
+Lemma read_v2_x_eq : forall ext body d, body = [] \/ 4 <= len body ->
+  read_v2_x ext body d = read_v2 body d.
+Proof. intros. unfold read_v2_x, read_v2. rewrite step_data_x_eq by assumption. reflexivity. Qed.
+
+Lemma read_v2_x_nil : forall ext d, read_v2_x ext [] d = Cont [] d.
+Proof. reflexivity. Qed.
+
+Lemma body_size_ge5 : forall n, data n <> [] -> 5 <= body_size n.
+Proof. intros n H. pose proof (data_size_lt_body n H). unfold body_size in *. destruct (0 <? data_size n); lia. Qed.
+
+Lemma read_v2_x_enc : forall ext n d, data n <> [] -> enc_okb n = true -> ranges_ok n ->
+  read_v2_x ext (body_bytes n) d = Cont [] (read_all n d).
+Proof.
+  intros ext n d Hne Hok Hr. rewrite read_v2_x_eq; [apply read_v2_enc; assumption|].
+  right. rewrite len_body_bytes by assumption. pose proof (body_size_ge5 n Hne). lia.
+Qed.
+
 (* finishing touches of ReadBytes / ReadNeedleBodyBytes: checksum and timestamp *)
 Definition finish (v : N) (ck ns : N) (d : dneedle) : dneedle :=
   let d2 := d_upd d (fun m => n_set_checksum m ck) in
@@ -490,9 +524,9 @@ Section WithCrcProofs.
     rewrite parse_header_bytes by assumption. cbv beta iota.
     rewrite N.eqb_refl. cbn [negb].
     unfold NeedleHeaderSize.
-    rewrite dropN_app by apply len_header_bytes.
+    rewrite (dropN_app _ (header_bytes n) _ 16) by apply len_header_bytes.
     rewrite takeN_app by (apply len_body_bytes; assumption).
-    rewrite read_v2_enc by assumption.
+    rewrite read_v2_x_enc by assumption.
     rewrite (app_assoc (header_bytes n)).
     rewrite dropN_app by (rewrite len_app, len_header_bytes, len_body_bytes by assumption; reflexivity).
     destruct (tail_read v n R) as [Hck Hts]. rewrite Hck, data_read_all.
@@ -531,7 +565,7 @@ Section WithCrcProofs.
     unfold read_bytes. rewrite encode_split.
     rewrite parse_header_bytes by (assumption || (rewrite Hs; reflexivity)). cbv beta iota.
     rewrite Hs, Hb. change (0 =? 0) with true. cbn [negb].
-    rewrite takeN_0, read_v2_nil.
+    rewrite takeN_0, read_v2_x_nil.
     change (0 <? 0) with false. cbn [andb].
     destruct (v =? 3) eqn:Ev; [|unfold stripped; rewrite Ev; reflexivity].
     unfold NeedleHeaderSize. change (16 + 0) with 16.
@@ -600,14 +634,15 @@ Section WithCrcProofs.
     rewrite Hrest.
     replace (off + 16 + body_length (body_size n) v) with (off + actual_size (body_size n) v)
       by (unfold actual_size, NeedleHeaderSize; lia).
-    f_equal. f_equal.
     unfold scan_visit. destruct (0 <? data_size n) eqn:Ed.
     - assert (Hne : data n <> []) by (intro E0; unfold data_size in Ed; rewrite E0 in Ed; discriminate).
-      rewrite read_v2_enc by assumption. rewrite data_read_all.
+      rewrite read_v2_x_enc by assumption. cbn [body_result]. rewrite data_read_all.
+      f_equal. f_equal.
       unfold finish. destruct (v =? 3) eqn:Ev; [|reflexivity].
       destruct (tail_read v n []) as [_ Hts]. rewrite Hts by assumption. reflexivity.
     - assert (He : data n = []) by (apply len_zero_nil; unfold data_size in Ed; lia).
-      destruct (body_empty n He) as [Hs Hb]. rewrite Hb, Hs, read_v2_nil.
+      destruct (body_empty n He) as [Hs Hb]. rewrite Hb, Hs, read_v2_x_nil. cbn [body_result].
+      f_equal. f_equal.
       unfold stripped. destruct (v =? 3) eqn:Ev; [|reflexivity].
       destruct (tail_read v n []) as [_ Hts]. rewrite Hts by assumption. reflexivity.
   Qed.
